@@ -122,6 +122,12 @@ static int run_hist(const struct hist_case *hc)
 		if (hc->pre_end)
 			xmp_end_player(B);
 		printf("prerun frames %ld\n", junk.frames);
+		/* what did playing change?  (the model's set B must be untouched) */
+		c06_image_take(a, &ia);
+		c06_image_take(b, &ib);
+		c06_image_diff(stdout, "diff_played", &ia, &ib);
+		c06_image_free(&ia);
+		c06_image_free(&ib);
 	}
 	op.kind = OP_START; op.a = hc->rate; op.b = hc->fmt;
 	c06_apply(A, &op, &mods, &oa);
